@@ -657,6 +657,31 @@ def _rename_unique(obj, level, n):
     obj.name = k
 
 
+INCLUDE_HREFS = ["missing.xml", "inc_types.xml", "inc_self.xml", "inc_a.xml", "incdir", "", ".", "/", "schema.xml",
+                 "inc_bad.xml", "/dev/null", "inc_msg.xml", "./inc_types.xml", "incdir/../inc_types.xml",
+                 "inc_dot_self.xml", "./inc_dot_a.xml", "inc_slash_self.xml", "inc_up_c.xml",
+                 "./schema.xml", "incdir/../schema.xml",
+                 # cycles on which *every* file is reached through an href that is not in normal form (seeded change C09-6)
+                 "./inc_dot_self.xml", "incdir/../inc_dot_a.xml", ".//inc_slash_self.xml", "./inc_up_c.xml", "incdir/.././inc_up_d.xml",
+                 "./inc_self.xml", "incdir/../inc_a.xml"]
+
+
+def include_sweep(xml_text):
+    """Deterministic: one input per (href of INCLUDE_HREFS, position) -- the include as first child of <types>, as last
+    child of <types>, and in front of the first message.  The random mutator draws these hrefs too, but a given cycle
+    shape then depends on the seed."""
+    out = []
+    k_open = xml_text.find("<types>")
+    k_close = xml_text.find("</types>")
+    if k_open < 0 or k_close < 0:
+        return out
+    for h in INCLUDE_HREFS:
+        el = '<xi:include xmlns:xi="http://www.w3.org/2001/XInclude" href="%s"/>' % h
+        for name, pos in (("first-in-types", k_open + len("<types>")), ("last-in-types", k_close), ("after-types", k_close + len("</types>"))):
+            out.append(("include-sweep %s@%s" % (h, name), (xml_text[:pos] + "\n" + el + "\n" + xml_text[pos:]).encode()))
+    return out
+
+
 def _mutual_cycle(c, s, other_name):
     o = s.find_type(other_name)
     c.elements.append(S.Ref("cyc1_", other_name))
@@ -843,10 +868,7 @@ def mutate_xml(xml, rng, nmut=None):
                 desc.append("header-member %s variant %d" % (x.get("name"), ch))
         elif op == 10:
             inc = ET.Element("{http://www.w3.org/2001/XInclude}include")
-            inc.set("href", rng.choice(["missing.xml", "inc_types.xml", "inc_self.xml", "inc_a.xml", "incdir", "", ".", "/", "schema.xml",
-                                        "inc_bad.xml", "/dev/null", "inc_msg.xml", "./inc_types.xml", "incdir/../inc_types.xml",
-                                        "inc_dot_self.xml", "./inc_dot_a.xml", "inc_slash_self.xml", "inc_up_c.xml",
-                                        "./schema.xml", "incdir/../schema.xml"]))
+            inc.set("href", rng.choice(INCLUDE_HREFS))
             e.insert(rng.randrange(len(e) + 1), inc)
             desc.append("include %s@%s" % (inc.get("href"), e.tag))
         else:
